@@ -47,8 +47,8 @@ def warn_value(v, flavour):
 _classes = {}
 
 
-def model_class(nv, tracer=False):
-    key = (nv, tracer)
+def model_class(nv, tracer=False, lags=0, leads=0):
+    key = (nv, tracer, lags, leads)
     if key in _classes:
         return _classes[key]
     endo = [f'X{i + 1}' for i in range(nv)]
@@ -58,8 +58,8 @@ def model_class(nv, tracer=False):
         EXOGENOUS = ['Z']
         NAMES = ENDOGENOUS + EXOGENOUS
         CHECK = endo
-        LAGS = 0
-        LEADS = 0
+        LAGS = lags
+        LEADS = leads
 
         def solve_t_before(self, t, **kwargs):
             d = self.__dict__
@@ -134,7 +134,7 @@ def build(rec, variant, tracer=False):
     nv = len(cfg['c0'])
     L = cfg['L']
     scale = variant['scale']
-    M = model_class(nv, tracer)
+    M = model_class(nv, tracer, cfg.get('lags', 0), cfg.get('leads', 0))
     span = span_for(L, variant['span'])
     m = M(span)
     tpos = cfg['t'] + L if cfg['t'] < 0 else cfg['t']
